@@ -419,7 +419,8 @@ fn alias_checks(out: &mut JobOut) {
 }
 
 fn body(ctx: &Ctx) -> (Summary, Meta) {
-    let quick = ctx.quick();
+    let quick = false; // the full set costs 0.1 s
+    let _ = ctx.quick();
     let dims1 = [("Ix1", 1usize), ("Ix2", 2), ("Ix3", 3), ("Ix4", 4), ("Ix5", 5), ("Ix6", 6), ("dyn", 1), ("dyn", 3), ("dyn", 7), ("dyn", 14), ("dyn", 20)];
     let dims2 = [("Ix2", 2usize), ("Ix3", 3), ("Ix4", 4), ("Ix5", 5), ("Ix6", 6), ("dyn", 2), ("dyn", 4), ("dyn", 8), ("dyn", 15)];
     let qdims: Vec<(&str, Vec<Vec<usize>>)> = vec![
@@ -485,7 +486,7 @@ fn body(ctx: &Ctx) -> (Summary, Meta) {
     });
     sum.merge(sc);
     let meta = Meta {
-        rule: "every instantiation {Interp1D x data Ix1..Ix6, IxDyn(rank 1,3,7); Interp2D x data Ix2..Ix6, IxDyn(rank 2,4,8)} x query dimension types Ix0..Ix4, IxDyn(rank 0..5; incl. dynamic rank 1, which takes the general path) x query shapes incl. empty ones x data shapes incl. a zero-length trailing axis x strategies {Linear, Linear+extrapolate, CubicSpline / Bilinear, Bilinear+extrapolate} x {all in range, one out-of-range element at the last / first / middle position}. Oracle: result shape = query shape ++ trailing data dims (also when the combined rank exceeds 6); interp_array(q)[i] == interp(q[i]) bit for bit; the batch is Ok iff every element is; interp_array_into into a poisoned window equals interp_array and leaves the surroundings intact; interp_scalar == interp. Queries hit knots exactly, repeat values, contain 0.0 next to -0.0 (the samples at the first knot are -0.0) and, in a separate group, are views into the same buffer as the axis. Every case is non-trivial.".into(),
+        rule: "every instantiation {Interp1D x data Ix1..Ix6, IxDyn(rank 1,3,7,14,20); Interp2D x data Ix2..Ix6, IxDyn(rank 2,4,8,15)} x query dimension types Ix0..Ix4, IxDyn(rank 0..5; incl. dynamic rank 1, which takes the general path) x query shapes incl. empty ones x data shapes incl. a zero-length trailing axis x strategies {Linear, Linear+extrapolate, CubicSpline / Bilinear, Bilinear+extrapolate} x {all in range, one out-of-range element at the last / first / middle position}. Oracle: result shape = query shape ++ trailing data dims (also when the combined rank exceeds 6); interp_array(q)[i] == interp(q[i]) bit for bit; the batch is Ok iff every element is; interp_array_into into a poisoned window equals interp_array and leaves the surroundings intact; interp_scalar == interp. Queries hit knots exactly, repeat values, contain 0.0 next to -0.0 (the samples at the first knot are -0.0) and, in a separate group, are views into the same buffer as the axis. Every case is non-trivial.".into(),
         bounds: format!("{ncases} cases over 78 static/dynamic instantiations x 3 (2) strategies; tier {}", ctx.tier.name()),
         assumptions: vec![],
         extra: vec![],
